@@ -25,26 +25,81 @@ structure Entry where
 
 /-! ### parent encoding (writer) -/
 
-/-- `oid_to_index = {entry.commit_id: i for i, entry in enumerate(sorted_entries)}` followed by `.get(p)`:
-for a duplicate-free table this is the first (= only) position. -/
+/-- `oid_to_index = {entry.commit_id: i for i, entry in enumerate(sorted_entries)}`:
+for a duplicate-free table the position of an id is its first (= only) position. -/
 def indexOf (oids : List Bytes) (o : Bytes) : Option Nat :=
   match oids with
   | [] => none
   | x :: xs => if x = o then some 0 else (indexOf xs o).map (· + 1)
 
-/-- `oid_to_index.get(entry.parents[i], GRAPH_PARENT_MISSING)` -/
-def slot (oids : List Bytes) (ps : List Bytes) (i : Nat) : Nat :=
-  match ps[i]? with
-  | some p => (indexOf oids p).getD MISSING
-  | none => MISSING
+/-- `parent_pos(entry, parent)`: `oid_to_index[parent]`, `ValueError` for a parent that is not in the graph
+(the format cannot say "unknown parent") -/
+def parentPos (oids : List Bytes) (p : Bytes) : Except Err Nat :=
+  match indexOf oids p with
+  | some j => .ok j
+  | none => .error .format
 
-/-- the `if len(entry.parents) == 0 … elif 1 … elif 2 … else` ladder of `write_to_file` -/
-def encodeParents (oids : List Bytes) (ps : List Bytes) : Nat × Nat :=
+/-- `extra_edges[-1] |= GRAPH_LAST_EDGE` -/
+def flagLast : List Nat → List Nat
+  | [] => []
+  | [x] => [x + LAST]
+  | x :: y :: r => x :: flagLast (y :: r)
+
+/-- the `if len(entry.parents) == 0 … elif 1 … elif 2 … else` ladder of `write_to_file`:
+(slot 1, slot 2, words appended to the extra edge list); `nEdges = len(extra_edges)` so far.
+`GRAPH_EXTRA_EDGES_NEEDED | n` is `+ n` (n < 2^31). -/
+def encodeParents (oids : List Bytes) (ps : List Bytes) (nEdges : Nat) : Except Err (Nat × Nat × List Nat) :=
+  match ps with
+  | [] => .ok (MISSING, MISSING, [])
+  | [a] => match parentPos oids a with
+      | .ok x => .ok (x, MISSING, [])
+      | .error e => .error e
+  | [a, b] => match parentPos oids a, parentPos oids b with
+      | .ok x, .ok y => .ok (x, y, [])
+      | .error e, _ => .error e
+      | _, .error e => .error e
+  | a :: rest => match parentPos oids a, rest.mapM (parentPos oids) with
+      | .ok x, .ok r => .ok (x, EXTRA + nEdges, flagLast r)
+      | .error e, _ => .error e
+      | _, .error e => .error e
+
+/-- the loop over `sorted_entries`: slots per entry and the complete extra edge list -/
+def encodeAll (oids : List Bytes) : List (List Bytes) → Nat → Except Err (List (Nat × Nat) × List Nat)
+  | [], _ => .ok ([], [])
+  | ps :: more, n =>
+    match encodeParents oids ps n with
+    | .error e => .error e
+    | .ok (p1, p2, ew) =>
+      match encodeAll oids more (n + ew.length) with
+      | .error e => .error e
+      | .ok (slots, edges) => .ok ((p1, p2) :: slots, ew ++ edges)
+
+/-- the parent ladder BEFORE the repair (two slots only, a parent outside the table becomes
+GRAPH_PARENT_MISSING = GRAPH_PARENT_NONE): kept for the regression witnesses -/
+def encodeParentsOld (oids : List Bytes) (ps : List Bytes) : Nat × Nat :=
+  let look := fun (i : Nat) => match ps[i]? with
+    | some p => (indexOf oids p).getD MISSING
+    | none => MISSING
   match ps with
   | [] => (MISSING, MISSING)
-  | [_] => (slot oids ps 0, MISSING)
-  | [_, _] => (slot oids ps 0, slot oids ps 1)
-  | _ => (slot oids ps Gen.Accel.octopusSlot1, slot oids ps Gen.Accel.octopusSlot2)
+  | [_] => (look 0, MISSING)
+  | _ => (look 0, look 1)
+
+/-! ### `generate_commit_graph`: which commits are described at all -/
+
+/-- all parents of every entry are entries themselves -/
+def closedB (es : List (Bytes × List Bytes)) : Bool :=
+  es.all (fun e => e.2.all (fun p => (es.map (·.1)).contains p))
+
+/-- one round of "leave out every commit with a parent that is not (any longer) in the set" -/
+def closeStep (es : List (Bytes × List Bytes)) : List (Bytes × List Bytes) :=
+  es.filter (fun e => e.2.all (fun p => (es.map (·.1)).contains p))
+
+/-- to a fixed point (the code uses a children-map worklist; same greatest closed subset) -/
+def closeEntries : Nat → List (Bytes × List Bytes) → List (Bytes × List Bytes)
+  | 0, es => es
+  | fuel + 1, es =>
+    if (closeStep es).length = es.length then es else closeEntries fuel (closeStep es)
 
 /-! ### parent decoding (reader) -/
 
@@ -72,14 +127,25 @@ def decodeParents (oids : List Bytes) (edges : Option (List Nat)) (p1 p2 : Nat) 
                  | some ws => parseExtraEdges oids (ws.drop (p2 - EXTRA))))
     else .ok a
 
-/-- What a reader of the written table answers for the commit at position `i`:
-`reader (writer es)` restricted to the parent lists. -/
+/-- What a reader of the written file answers for the commit at position `i` — `none` when no file is
+written (the writer raised) or there is no such position: `reader (writer es)` restricted to parent lists.
+The EDGE chunk exists iff there are extra edges. -/
 def roundTripParents (es : List (Bytes × List Bytes)) (i : Nat) : Option (Except Err (List Bytes)) :=
+  let oids := es.map (·.1)
+  match encodeAll oids (es.map (·.2)) 0 with
+  | .error _ => none
+  | .ok (slots, edges) =>
+    match slots[i]? with
+    | none => none
+    | some (p1, p2) => some (decodeParents oids (if edges.isEmpty then none else some edges) p1 p2)
+
+/-- the same with the writer as it was before the repair -/
+def roundTripParentsOld (es : List (Bytes × List Bytes)) (i : Nat) : Option (Except Err (List Bytes)) :=
   match es[i]? with
   | none => none
   | some e =>
     let oids := es.map (·.1)
-    let p := encodeParents oids e.2
+    let p := encodeParentsOld oids e.2
     some (decodeParents oids none p.1 p.2)
 
 /-! ### whole file: writer -/
@@ -112,33 +178,37 @@ def fanout (es : List Entry) : List Nat :=
 
 def be32? (v : Nat) : Except Err Bytes := if v < 2 ^ 32 then .ok (beBytes 4 v) else .error .format
 
-def cdatRecord (oids : List Bytes) (e : Entry) : Except Err Bytes := do
-  let p := encodeParents oids e.parents
-  let a ← be32? p.1
-  let b ← be32? p.2
+def cdatRecord (e : Entry) (slot : Nat × Nat) : Except Err Bytes := do
+  let a ← be32? slot.1
+  let b ← be32? slot.2
   let g ← be32? ((e.gen <<< Gen.Accel.cgGenShift) ||| (e.time >>> Gen.Accel.cgTimeShift))
   let t := beBytes 4 (e.time % 2 ^ 32)
   .ok (e.tree ++ a ++ b ++ g ++ t)
 
-/-- `CommitGraph.write_to_file` (`ValueError` on an empty graph, `struct.error` on field overflow) -/
+/-- table of contents + chunk data for a list of (id, data) chunks -/
+def tocAndData (chunks : List (Bytes × Bytes)) : Bytes :=
+  let first := Gen.Accel.cgHeaderSize + (chunks.length + 1) * Gen.Accel.cgTocEntrySize
+  let rec go : List (Bytes × Bytes) → Nat → Bytes
+    | [], off => [0, 0, 0, 0] ++ beBytes 8 off
+    | (id, d) :: r, off => id ++ beBytes 8 off ++ go r (off + d.length)
+  go chunks first ++ (chunks.map (·.2)).flatten
+
+/-- `CommitGraph.write_to_file` (`ValueError` on an empty graph or a parent outside the graph,
+`struct.error` on field overflow) -/
 def writeFile (hashVersion : Nat) (entries : List Entry) : Except Err Bytes := do
   if entries.isEmpty then .error .format
   let es := sortEntries entries
   let oids := es.map (·.cid)
   let oidl := oids.flatten
-  let recs ← es.mapM (cdatRecord oids)
+  let (slots, edges) ← encodeAll oids (es.map (·.parents)) 0
+  let recs ← (es.zip slots).mapM (fun (e, sl) => cdatRecord e sl)
   let cdat := recs.flatten
   let fan := (fanout es).flatMap (beBytes 4)
-  let c1 := Gen.Accel.cgHeaderSize + Gen.Accel.cgTocSize
-  let c2 := c1 + fan.length
-  let c3 := c2 + oidl.length
-  let term := c3 + cdat.length
-  .ok (Gen.Accel.cgSignature ++ [UInt8.ofNat Gen.Accel.cgVersion, UInt8.ofNat hashVersion, 3, 0]
-    ++ Gen.Accel.chunkOidFanout ++ beBytes 8 c1
-    ++ Gen.Accel.chunkOidLookup ++ beBytes 8 c2
-    ++ Gen.Accel.chunkCommitData ++ beBytes 8 c3
-    ++ [0, 0, 0, 0] ++ beBytes 8 term
-    ++ fan ++ oidl ++ cdat)
+  let edgeWords ← edges.mapM be32?
+  let chunks := [(Gen.Accel.chunkOidFanout, fan), (Gen.Accel.chunkOidLookup, oidl), (Gen.Accel.chunkCommitData, cdat)]
+    ++ (if edges.isEmpty then [] else [(Gen.Accel.chunkExtraEdges, edgeWords.flatten)])
+  .ok (Gen.Accel.cgSignature ++ [UInt8.ofNat Gen.Accel.cgVersion, UInt8.ofNat hashVersion, UInt8.ofNat chunks.length, 0]
+    ++ tocAndData chunks)
 
 /-! ### whole file: reader -/
 
